@@ -76,3 +76,19 @@ Proof.
   destruct (fresh_all_histories w dyn ops) as [_ [_ U]]. exact (U g1 g2 FRefresh H1 H2 E NZ).
 Qed.
 Print Assumptions refresh_index_unique.
+
+(* Rotation does not depend on the embedder's issue-refresh-token function: the refresh handler is the same
+   program under every ShouldIssueRefreshTokenFunc the model knows (never / always / only while
+   offline_access is active / only for the authorization_code grant), so rotation_one_shot and
+   refresh_bound hold when the function would answer "no" for the refreshed grant info
+   (grant type refresh_token, narrowed scopes) too. *)
+Theorem rotation_independent_of_issue_policy : forall w f n now r,
+  refresh_grant (mkWorld (w_cfg w <| cf_issue_refresh := f |>) (w_static w)) n now r = refresh_grant w n now r.
+Proof. exact refresh_ignores_issue_policy. Qed.
+Print Assumptions rotation_independent_of_issue_policy.
+(* the non-constant policies do answer "no" on refreshed grant infos *)
+Example issue_policy_not_constant :
+  issue_policy IssueIfOffline GAuthorizationCode "openid offline_access" = true /\
+  issue_policy IssueIfOffline GRefreshToken "openid" = false /\
+  issue_policy IssueCodeOnly GRefreshToken "openid offline_access" = false.
+Proof. repeat split; reflexivity. Qed.
